@@ -69,7 +69,7 @@ def descs(draw, odd_units=True, text_curves=True, nan=True):
     desc = base["desc"]
     nrows = len(desc["curves"][0][4])
     if odd_units and draw(st.integers(0, 2)) == 0:
-        odd = st.sampled_from([".1IN", "hh:mm", "0.1IN", "m.s", "1000 lbf", "(m)", "[ft]", "%", "us/ft", ".5m"])  # purely numeric units: open finding D34
+        odd = st.sampled_from([".1IN", "hh:mm", "0.1IN", "m.s", "1000 lbf", "(m)", "[ft]", "1000", "12", "%", "us/ft", ".5m"])
         for sec in ("well", "params"):
             for row in desc[sec]:
                 if row[0].strip() and draw(st.integers(0, 3)) == 0:
